@@ -93,6 +93,25 @@ def evaluate(ctx, s, kind, am, ph, space, case, nontriv, tag=""):
         ctx.require("normalised probabilities sum to one" + tag, math.isclose(float(pz[0].sum()), 1.0, rel_tol=1e-9), case, float(pz[0].sum()))
         ctx.require("probability(v, Z) == probability(v) / Z" + tag, np.allclose(pz[1].numpy() * 2.5, prob_n, rtol=1e-12, atol=0), case)
         ctx.require("normalised state has unit norm" + tag, math.isclose(float(mod2.sum() / float(Z)), 1.0, rel_tol=1e-9), case)
+    # ---- documented aliases, other sample dtypes, batches far larger than the basis (gathered rows)
+    ok, al = ctx.call("normalisation aliases", case, lambda: (s.compute_normalization(space), s.rbm_am.partition(space)))
+    if ok:
+        ctx.require("compute_normalization(space) == normalization(space)" + tag, math.isclose(float(al[0]), float(Z), rel_tol=1e-12), case, float(al[0]))
+        ctx.require("rbm_am.partition(space) == normalization(space)" + tag, math.isclose(float(al[1]), float(Z), rel_tol=1e-12), case, float(al[1]))
+    for dname, conv in (("float32", lambda t: t.float()), ("int64", lambda t: t.long())):
+        ok, od = ctx.call("evaluation on a %s batch" % dname, case, lambda: (s.psi(conv(space)), s.probability(conv(space)), s.amplitude(conv(space))))
+        if ok:
+            good = all(np.allclose(np.asarray(a.detach().numpy(), dtype=float), np.asarray(b.detach().numpy(), dtype=float), rtol=1e-12, atol=0)
+                       for a, b in zip(od, (psi, prob, amp)))
+            ctx.require("psi / probability / amplitude do not depend on the dtype of the 0/1 batch (%s)" % dname + tag, good, case)
+    if tag == "":
+        for B in (len(sp) + 1, 70001):
+            idx = torch.tensor(ctx.rng.integers(0, len(sp), size=B))
+            ok, og = ctx.call("evaluation on a gathered batch of %d rows" % B, case, lambda: (s.psi(space[idx]), s.probability(space[idx])))
+            if ok:
+                good = tuple(og[0].shape) == (2, B) and tuple(og[1].shape) == (B,) and \
+                    bool(torch.allclose(og[0], psi[:, idx], rtol=1e-12, atol=0)) and bool(torch.allclose(og[1], prob[idx], rtol=1e-12, atol=0))
+                ctx.require("each row of a long batch gets the value of its basis state (B=%d)" % B, good, case)
     if kind == "positive":
         ctx.require("positive state is real and > 0" + tag, bool(np.all(psi_n[1] == 0) and np.all(psi_n[0] > 0)), case)
         ctx.require("positive phase is zero" + tag, bool(np.all(phase.numpy() == 0)), case)
